@@ -469,6 +469,9 @@ def expiry():
             s2.ghost[('kexp', i)] = False
             return [(st, E.VInt(EXP[i])), (s2, E.VNone())]
         r.hook(SIGC, 'key_expiration', kexp)
+        # whether such a self-signature has itself expired (its own signature expiration time) is of no concern here: free per signature
+        r.hook(SIGC, 'is_expired', lambda ex, st, o, a: [(st, E.VBool(z3.Bool('self_signature_%s_has_itself_expired' % o.ref[3:])))])
+        r.hook(SIGC, 'expires_at', lambda ex, st, o, a: [(st, E.VInt(z3.Int('self_signature_%s_expires_at' % o.ref[3:])))])
         for pi, (s, v) in enumerate(r.call(E.VObj(KEYC, 'key'), [])):
             paths += 1
             if isinstance(v, E.Raise):
